@@ -28,6 +28,33 @@ def notIssuedWhy (chain : List ChainElem) : String :=
   if idx.isEmpty then ""
   else s!": it verifies only under ClientCA.Certificate[{",".intercalate (idx.map toString)}], bundled behind the client CA (= ClientCA.Certificate[0]) in the server's CA chain, which is not the client CA"
 
+/-- how the harness built the subject of an `extract` / `uniq` line: not by a `MakeSubject…` call, by
+`MakeSubjectV2(id, hash)` (token `<id>`), or by `MakeSubjectV1(id, token)` (token `v1,<id>,<hex token>`) -/
+inductive IssuedBy
+  | no | v2 (id : Nat) | v1 (id : Nat) (tok : Bytes)
+  deriving DecidableEq
+
+def parseIssued (t : String) : Option IssuedBy :=
+  if t = "-" then some .no else
+  match t.splitOn "," with
+  | [id] => id.toNat?.map .v2
+  | ["v1", id, tok] => match id.toNat?, hexToBytes tok with
+    | some id, some tok => some (.v1 id tok)
+    | _, _ => none
+  | _ => none
+
+/-- statement oracle for an issued subject: the identity it must yield, and the SPEC reason if it does not.
+v2: token = the whole subject.  v1: token = the whole legacy token the subject was issued for (so that the identity
+determines the subject: (v1, id, token) ↦ "v1:id:token"), whatever bytes the token contains. -/
+def issuedWant (cn : Bytes) : IssuedBy → Option (String × String)
+  | .no => none
+  | .v2 id =>
+    let want := s!"ok,{id},{bytesToHex cn},v2"
+    some (want, s!"issued subject must yield identity {want}")
+  | .v1 id tok =>
+    let want := s!"ok,{id},{bytesToHex tok},v1"
+    some (want, s!"subject issued by MakeSubjectV1 for legacy token {bytesToHex tok} must yield identity {want} (the whole token: otherwise the identity is not unique to the certificate subject)")
+
 def step (_ : Unit) (toks : List String) (rhs : String) : Unit × Verdict :=
   match toks with
   | ["mk2", id, hash, b64] =>
@@ -42,18 +69,33 @@ def step (_ : Unit) (toks : List String) (rhs : String) : Unit × Verdict :=
       let m := makeSubjectV1 id tok
       if m ≠ r then ((), .diff (bytesToHex m)) else ((), .ok)
     | _, _, _ => ((), .bad "mk1 args")
-  | ["extract", cn, issuedId] =>
-    match hexToBytes cn with
-    | some cn =>
+  | ["extract", cn, issued] =>
+    match hexToBytes cn, parseIssued issued with
+    | some cn, some iss =>
       let m := (extract cn).tok
-      -- statement: every issued (MakeSubjectV2, uint64 id) certificate yields an identity whose token is the subject
-      match issuedId.toNat? with
-      | some id =>
-        let want := s!"ok,{id},{bytesToHex cn},v2"
-        if rhs ≠ want then ((), .spec s!"issued subject must yield identity {want}")
-        else if m ≠ rhs then ((), .diff m) else ((), .ok)
+      match issuedWant cn iss with
+      | some why => if rhs ≠ why.1 then ((), .spec why.2) else if m ≠ rhs then ((), .diff m) else ((), .ok)
       | none => if m ≠ rhs then ((), .diff m) else ((), .ok)
-    | none => ((), .bad "extract args")
+    | _, _ => ((), .bad "extract args")
+  | ["uniq", cnA, issA, cnB, issB] =>
+    -- two ISSUED subjects (each built by MakeSubjectV1 / MakeSubjectV2 with a uint64 id): the identity must be a function of
+    -- the subject and unique to it
+    match hexToBytes cnA, parseIssued issA, hexToBytes cnB, parseIssued issB, rhs.splitOn ";" with
+    | some a, some ia, some b, some ib, [ra, rb] =>
+      if ia = .no ∨ ib = .no then ((), .bad "uniq needs issued subjects") else
+      if ¬ ra.startsWith "ok," ∨ ¬ rb.startsWith "ok," then ((), .spec "an issued subject yields no identity")
+      else if a ≠ b ∧ ra = rb then
+        ((), .spec s!"two distinct issued subjects yield the same identity {ra}: the token is not unique to the certificate subject")
+      else if a = b ∧ ra ≠ rb then ((), .spec "the same subject yields two different identities")
+      else
+        match issuedWant a ia, issuedWant b ib with
+        | some wa, some wb =>
+          if ra ≠ wa.1 then ((), .spec wa.2) else if rb ≠ wb.1 then ((), .spec wb.2)
+          else
+            let m := (extract a).tok ++ ";" ++ (extract b).tok
+            if m ≠ rhs then ((), .diff m) else ((), .ok)
+        | _, _ => ((), .bad "uniq issued")
+    | _, _, _, _, _ => ((), .bad "uniq args")
   | ["req", pow, pub, shaPub, b64] =>
     match hexToBytes pub, hexToBytes shaPub, hexToBytes b64 with
     | some pub, some shaPub, some b64 =>
